@@ -115,6 +115,13 @@ def collect(rec_wire, consumer_netloc):
     return rep, problems
 
 
+def _dh(obj):
+    try:
+        return dict(obj[1]).get('DescriptorHandle')
+    except Exception:  # noqa: BLE001
+        return None
+
+
 def check_step(rec, walk):
     """Return None or (kind, signature, detail)."""
     if rec.result == 'raised':
@@ -181,6 +188,15 @@ def check_step(rec, walk):
         want = mds_of(ref_snap, key[1])
         if src != want:
             return ('wrong-source-mds', 'DescriptionModificationReport', {'key': key, 'SourceMds': src, 'expected': want})
+        if mod != 'Del':
+            # the part carries exactly the states of the descriptor as committed (all context states of a context
+            # descriptor: a consumer drops the context states that an update part does not list)
+            mine = [sn for sn in st_nodes if sn.get('DescriptorHandle') == key[1]]
+            got_states = sorted(('c', sn.get('Handle')) if sn.get('Handle') else ('s', sn.get('DescriptorHandle')) for sn in mine)
+            want_states = sorted(k for k, obj in a_content.items() if k[0] in ('s', 'c') and _dh(obj) == key[1])
+            if got_states != want_states:
+                return ('descriptor-part-states-differ-from-commit', mod, {'descriptor': key[1], 'in_report': got_states,
+                                                                           'committed': want_states})
         for sn in st_nodes:
             skey = ('c', sn.get('Handle')) if sn.get('Handle') else ('s', sn.get('DescriptorHandle'))
             if mod != 'Del':
@@ -338,6 +354,7 @@ def history_jobs(ctx):
         jobs += [({'two_mds': True, 'async': False}, h) for h in hist.sequences(two + A.CORE[:6], 2)]
         jobs += [({'two_mds': False, 'async': True}, h) for h in hist.sequences(A.CORE, 1)]
         jobs += [({'two_mds': False, 'async': False, 'periodic': True}, h) for h in hist.sequences(A.CORE[:9], 2)]
+        jobs += [(base, ['patient-new(A)', 'patient-new(B)', e]) for e in names if e.startswith(('update-context', 'patient-entity', 'delete'))]
     else:
         jobs += [(base, h) for h in hist.sequences(names, 2)]
         jobs += [({'two_mds': True, 'async': False}, h) for h in hist.sequences(two + A.CORE, 2)]
@@ -345,6 +362,7 @@ def history_jobs(ctx):
         jobs += [({'two_mds': False, 'async': True}, h) for h in hist.sequences(A.CORE, 2)]
         jobs += [({'two_mds': False, 'async': False, 'periodic': True}, h) for h in hist.sequences(A.CORE, 2)]
         jobs += [({'two_mds': False, 'async': False, 'periodic': True}, h) for h in hist.sequences(A.CORE[:6], 3)]
+        jobs += [(base, ['patient-new(A)', 'patient-new(B)', 'patient-entity-new(C)', e]) for e in names]
     return jobs
 
 
